@@ -23,6 +23,7 @@ const (
 	WrongTrans = "Xt" // a response of the wrong type together with a transient error: permanent failure, response not stored
 	WrongPerm  = "Xp" // a response of the wrong type together with a permanent error: permanent failure, response not stored
 	WrongNamed = "Xn" // a response of another type that prints like the declared one (same package and type name, other import path)
+	TransZero  = "Tz" // a transient error without any detail (&plugins.Error{}): still an error
 	PermWrap   = "Fw" // a permanent error that wraps a non-permanent cause: the outer flag decides, a permanent failure
 )
 
